@@ -298,7 +298,7 @@ theorem wf_asComplete : ∀ l : Loc, wf (asComplete l) = wf l
   | between _ => by simp [asComplete]
   | point _ => by simp [asComplete]
   | ambiguous _ _ => by simp [asComplete]
-  | compl _ => by simp [asComplete]
+  | compl l => by simp [asComplete, wf, wf_asComplete l]
 theorem wfList_asComplete : ∀ ls : List Loc, wfList (asCompleteList ls) = wfList ls
   | [] => by simp [asCompleteList]
   | l :: ls => by simp [asCompleteList, wf_asComplete l, wfList_asComplete ls]
@@ -313,7 +313,7 @@ theorem within_asComplete (W : Int) : ∀ l : Loc,
   | between _ => by simp [asComplete]
   | point _ => by simp [asComplete]
   | ambiguous _ _ => by simp [asComplete]
-  | compl _ => by simp [asComplete]
+  | compl l => by simp [asComplete, within_asComplete W l]
 theorem withinList_asComplete (W : Int) : ∀ ls : List Loc,
     allLeavesList (leafWithin W) (asCompleteList ls) = allLeavesList (leafWithin W) ls
   | [] => by simp [asCompleteList]
